@@ -1,5 +1,5 @@
 // Kani obligations for src/fs.rs (child module of the real fs module).
-// @needs boot_sector
+// @needs boot_sector,table
 #![allow(dead_code, unused_imports, unused_variables, unused_mut)]
 use super::*;
 use crate::boot_sector::BiosParameterBlock;
